@@ -13,22 +13,22 @@ const shardingRel = "pkg/blobstore/sharding"
 func init() {
 	register(&Rule{
 		ID: "R12.1", Props: []string{"C12"}, Engine: "order + flow + own",
-		Text: "canonical order: NewRendezvousShardSelector rejects shards whose key hashes collide, fills each shard's hash from hashServer(Key), and sorts the list by that hash (strict <) before the selector is built; rendezvousShardSelector.shards is never written afterwards",
+		Text:  "canonical order: NewRendezvousShardSelector rejects shards whose key hashes collide, fills each shard's hash from hashServer(Key), and sorts the list by that hash (strict <) before the selector is built; rendezvousShardSelector.shards is never written afterwards",
 		Floor: 3, MustExist: true, Run: runR121,
 	})
 	register(&Rule{
 		ID: "R12.2", Props: []string{"C12"}, Engine: "flow (dependence) + guard",
-		Text: "independent score, strict first maximum: in GetShard the score compared depends only on the object hash and on fields of the shard of the current iteration (never on the running best or on other shards), the running best is replaced only on `current > best` (strict), starts at zero, and the value returned is the index field of the shard that produced the best score; score/Log2Fixed/splitmix64/hashServer are pure (no global writes, no maps, channels, goroutines, floats, time or randomness) and the lookup table is never written",
+		Text:  "independent score, strict first maximum: in GetShard the score compared depends only on the object hash and on fields of the shard of the current iteration (never on the running best or on other shards), the running best is replaced only on `current > best` (strict), starts at zero, and the value returned is the index field of the shard that produced the best score; score/Log2Fixed/splitmix64/hashServer are pure (no global writes, no maps, channels, goroutines, floats, time or randomness) and the lookup table is never written",
 		Floor: 3, MustExist: true, Run: runR122,
 	})
 	register(&Rule{
 		ID: "R12.5", Props: []string{"C12"}, Engine: "flow + own",
-		Text: "one routing function: every backend selected in shardingBlobAccess.{Get,GetFromComposite,Put,FindMissing} is indexed by getBackendIndexByDigest of the digest being operated on (the parent digest for composite reads); getBackendIndexByDigest feeds the selector with binary.BigEndian.Uint64 of the first eight hash bytes and nothing else (no instance name, size or operation)",
+		Text:  "one routing function: every backend selected in shardingBlobAccess.{Get,GetFromComposite,Put,FindMissing} is indexed by getBackendIndexByDigest of the digest being operated on (the parent digest for composite reads); getBackendIndexByDigest feeds the selector with binary.BigEndian.Uint64 of the first eight hash bytes and nothing else (no instance name, size or operation)",
 		Floor: 5, MustExist: true, Run: runR125,
 	})
 	register(&Rule{
 		ID: "R12.6", Props: []string{"C12"}, Engine: "flow + noerrdrop",
-		Text: "FindMissing shape: each digest is added to the builder selected by getBackendIndexByDigest of that same digest; each backend is asked about exactly the builder with its own index; the answer is GetUnion of all per-backend answers; the result slots handed to the goroutines stay valid (the slice they point into is allocated once with capacity len(backends), so append never reallocates it); errors are wrapped with the shard key and Wait's error is returned",
+		Text:  "FindMissing shape: each digest is added to the builder selected by getBackendIndexByDigest of that same digest; each backend is asked about exactly the builder with its own index; the answer is GetUnion of all per-backend answers; the result slots handed to the goroutines stay valid (the slice they point into is allocated once with capacity len(backends), so append never reallocates it); errors are wrapped with the shard key and Wait's error is returned",
 		Floor: 5, MustExist: true, Run: runR126,
 	})
 }
